@@ -1080,7 +1080,22 @@ EXPLANATION = (
     "function (item store/delete, mutator call; class-scope containers only "
     "if no code rebinds the attribute on an instance); an attribute of an "
     "imported module stored from inside a function.  A new holder, or a "
-    "triaged holder changed in a new way, is a violation.  These are "
+    "triaged holder changed in a new way, is a violation.  R4.7 (module "
+    "c04_typegraph, clang AST of the typegraph): (a) every ordered container "
+    "keyed by CFGNode/Binding/Variable/... pointers compares by id "
+    "(pointer_less), never by address; (b) every iteration over an unordered "
+    "container keyed by such pointers - range-for, std::any_of / all_of / "
+    "none_of / count_if / find_if over its begin(), a range insert, any other "
+    "begin() - is order-insensitive.  (b) is decided from the effects of the "
+    "code run per element, not from the name of the enclosing function: "
+    "inserts into id-ordered sets/maps and constant stores into a flag are "
+    "order-free unless the body reads its own accumulator or combines an "
+    "accumulation with an early exit; called functions are followed and must "
+    "be effect-free (no field write, no non-const reference/pointer "
+    "parameter, transitively); the predicate of a short-circuiting algorithm "
+    "must have no effect at all and the position returned by find_if may "
+    "only be compared with end(); any remaining effect must be a triaged "
+    "(container, residual effects) combination.  These are "
     "necessary conditions.  NOT decided: determinism of the VM as a whole, "
     "state kept in mutable default arguments, function attributes, "
     "functools caches, objects reachable from a reused Loader, or containers "
@@ -1106,6 +1121,9 @@ ASSUMPTIONS = [
     "subclass in another module does not override the `self.m` that a "
     "module-local call resolves to",
     "test files, test_data and typeshed are outside the scope",
+    "R4.7b: standard-library calls and calls whose definition is not in the "
+    "typegraph translation units (logging) have no effect on analysis "
+    "results; std::set/std::map insertion is commutative",
     "R4.8: module and class objects (and what their scope binds) live for "
     "the whole process; code at module/class scope runs once at import; "
     "msgspec copies a mutable field default per instance; Python calls "
